@@ -137,7 +137,9 @@ class Surgeon(TraitType):
         ACT("post_setattr", obj)
 
 
-def mkclass():
+def mkclass(bare=False):
+    """bare: no static change handlers at all, so that class traits have NO trait-level notifiers (the static
+    `_anytrait_changed` is attached to every class trait) and only object-level ones are dispatched."""
     class O(HasTraits):
         a = Any
         i = Int
@@ -164,17 +166,18 @@ def mkclass():
         def _get_pp(self):
             return Peer()
 
-        def _i_changed(self, old, new):
-            ACT("static_i", self)
+        if not bare:
+            def _i_changed(self, old, new):
+                ACT("static_i", self)
 
-        def _a_changed(self, old, new):
-            ACT("static_a", self)
+            def _a_changed(self, old, new):
+                ACT("static_a", self)
 
-        def _s_changed(self, old, new):
-            ACT("static_s", self)
+            def _s_changed(self, old, new):
+                ACT("static_s", self)
 
-        def _anytrait_changed(self, name, old, new):
-            ACT("any", self)
+            def _anytrait_changed(self, name, old, new):
+                ACT("any", self)
 
         def _l_default(self):
             ACT("l_default", self)
@@ -341,6 +344,7 @@ def reentrant_strategy(tier):
         "prog": st.lists(hprog, min_size=3, max_size=12).map(lambda l: [["any_add"], ["any_add"], ["any_add"]] + l),
         "reraise": st.booleans(),
         "gc_stress": st.booleans(),
+        "bare": st.sampled_from([True, True, False]),
     })
     general = st.fixed_dictionaries({
         "script": st.dictionaries(st.sampled_from(SITES), st.lists(act, min_size=1, max_size=3), max_size=5),
@@ -348,6 +352,7 @@ def reentrant_strategy(tier):
         "prog": st.lists(act, min_size=1, max_size=15),
         "reraise": st.booleans(),
         "gc_stress": st.booleans(),
+        "bare": st.sampled_from([False, False, False, True]),
     })
     return st.one_of(general, general, focused, focused2)
 
@@ -375,7 +380,9 @@ def reentrant_run(case, ctx):
     del HANDLERS[:]
     DEPTH[0] = 0
     gc.set_threshold(1, 1, 1) if case["gc_stress"] else gc.set_threshold(700, 10, 10)
-    O = mkclass()
+    O = mkclass(bool(case.get("bare")))
+    if case.get("bare"):
+        ctx.label("class-without-static-handlers")
     o = O()
     o.peer = Peer()
     CUR[0] = o
